@@ -13,7 +13,7 @@ def put(name, text):
     s = s[:i + len(a)] + "\n" + text.rstrip() + "\n" + s[j:]
 
 
-for r in ("r2", "r3", "r4", "r5", "r6", "r7"):
+for r in ("r2", "r3", "r4", "r5", "r6", "r7", "r8"):
     out = subprocess.run([sys.executable, os.path.join(V, "tools", "seed_table.py"), r], capture_output=True, text=True).stdout
     put("seed-table " + r, out)
 def harmless_table(sub, marker):
